@@ -400,6 +400,12 @@ func (lb *LoadBalancer) processHealthCheckResponse(backend *Backend, resp *http.
 
 	// If we get here, the backend is healthy
 	backend.Mutex.Lock()
+	if !backend.IsHealthy && time.Now().Before(backend.UnhealthyUntil) {
+		// The backend was ejected while this probe was in flight: a successful
+		// probe must not cut the unhealthy window short
+		backend.Mutex.Unlock()
+		return
+	}
 	wasUnhealthy := !backend.IsHealthy
 	backend.IsHealthy = true
 	backend.Mutex.Unlock()
